@@ -902,6 +902,7 @@ func (w *c07World) actInCommit(t *rapid.T) error {
 		}
 	}
 	var desc []string
+	var outs []CircuitKey
 	for _, in := range keys {
 		if !w.mailbox(c).AckPacket(in) {
 			return fmt.Errorf("response %s vanished", c07KeyStr(in))
@@ -909,6 +910,7 @@ func (w *c07World) actInCommit(t *rapid.T) error {
 		h := w.htlcs[in]
 		if h.out != nil {
 			w.resolvedOut = append(w.resolvedOut, *h.out)
+			outs = append(outs, *h.out)
 		}
 		h.exists, h.out, h.closed = false, nil, false
 		h.respBox = false
@@ -917,6 +919,40 @@ func (w *c07World) actInCommit(t *rapid.T) error {
 		desc = append(desc, c07KeyStr(in))
 	}
 	w.logf("inCommit(link%d)[%s]", c, strings.Join(desc, " "))
+
+	if err := w.settle(&c07Expect{}); err != nil {
+		return err
+	}
+
+	// The outgoing link has not yet learnt that its response was
+	// processed (its forwarding package is acked later) and may replay it.
+	var pkts []*htlcPacket
+	for _, out := range outs {
+		if rapid.Bool().Draw(t, "replayResolved") {
+			continue
+		}
+		pkt := &htlcPacket{
+			outgoingChanID: out.ChanID,
+			outgoingHTLCID: out.HtlcID,
+			amount:         1,
+		}
+		if rapid.Bool().Draw(t, "settle") {
+			pkt.htlc = &lnwire.UpdateFulfillHTLC{}
+		} else {
+			pkt.htlc = &lnwire.UpdateFailHTLC{
+				Reason: lnwire.OpaqueReason(fakeHmac),
+			}
+		}
+		pkts = append(pkts, pkt)
+		w.label("resp:after_resolved")
+		w.logf("respond(%s) after resolve", c07KeyStr(out))
+	}
+	if len(pkts) == 0 {
+		return nil
+	}
+	if err := w.sw.ForwardPackets(nil, pkts...); err != nil {
+		return fmt.Errorf("ForwardPackets: %v", err)
+	}
 
 	return w.settle(&c07Expect{})
 }
